@@ -185,7 +185,9 @@ DoOp == \E k \in Kinds : Op(k)
 
 (* properties of the record level *)
 Frame == (Mode = "rec" /\ phase = "edit") => FrameHolds(before, stream, edit)
-Placement == (Mode = "rec" /\ phase = "edit") => PlacementHolds(before, stream, edit)
+(* Placement is a statement about ONE stream operation (the rule is evaluated on the stream the record enters);
+   after several operations of one edit only the frame property is claimed.                                  *)
+Placement == (Mode = "rec" /\ phase = "edit" /\ nops <= 1) => PlacementHolds(before, stream, edit)
 UidsUnique == Mode = "rec" => \A i, j \in 1..Len(stream) : i # j => stream[i][2] # stream[j][2]
 
 EmitLayout == (Mode = "rec" /\ phase = "edit" /\ stream = before) =>
